@@ -334,7 +334,7 @@ func c14ClassifyDecode(name, base string, all map[string][]string) []c14Class {
 // ---- the check ----
 
 func runC14(c *vh.Ctx) {
-	c.Res.Rule = "every case (authorization over >= 8 policies / >= 8 entities with record literals holding several erroring entries, `in` over deep hierarchies and over sets with non-entity members, containsAll/Any over large colliding sets; encoders of policy, policy set, entity, entity map, value, schema; decode→encode of fixed policy/policy-set/entity/value/schema bytes) observed N times in-process over shuffled insertion orders and iterator orders with repetitions, and again in 3 fresh processes; every observation (decision, reason set, error set WITH messages, all bytes) must have one variant; variations are attributed by classifiers. Plus eval-site oracles against the Lean order-parameterised model run over all orders. distinct = distinct cases; non-trivial = >= 1 policy / >= 2 container entries / any byte input"
+	c.Res.Rule = "every case (authorization over >= 8 policies / >= 8 entities with record literals holding several erroring entries, `in` over deep hierarchies and over sets with non-entity members, containsAll/Any over large colliding sets; encoders of policy, policy set, entity, entity map, value, schema; decode→encode of fixed policy/policy-set/entity/value/schema bytes, on odd repetitions into a REUSED destination that already holds other content; entity maps and every single entity over look-alike UID groups whose Type+ID / Type+'::'+ID concatenations coincide) observed N times in-process over shuffled insertion orders and iterator orders with repetitions, and again in 3 fresh processes; every observation (decision, reason set, error set WITH messages, all bytes) must have one variant; variations are attributed by classifiers. Plus eval-site oracles against the Lean order-parameterised model run over all orders. distinct = distinct cases; non-trivial = >= 1 policy / >= 2 container entries / any byte input"
 	N := c.N(16, 128)
 	t0 := time.Now()
 	cases := c14Cases(c.Seed, c.Tier)
@@ -425,7 +425,7 @@ func runC14(c *vh.Ctx) {
 				classes = cs.Classify(name, m)
 			}
 			if len(classes) == 0 {
-				c.Report(vh.Finding{Class: "nondeterministic:" + cs.Kind + ":" + name, What: fmt.Sprintf("case %s: observation %q has %d variants over repetitions / insertion orders / processes", cs.Key, name, len(vs)),
+				c.Report(vh.Finding{Class: "nondeterministic:" + cs.Kind + ":" + c14ObsFamily(name), What: fmt.Sprintf("case %s: observation %q has %d variants over repetitions / insertion orders / processes", cs.Key, name, len(vs)),
 					Check: "oracle", Op: cs.Kind, Input: cs.Input, Expected: vs[0], Actual: vs[1]})
 				continue
 			}
@@ -455,6 +455,18 @@ func runC14(c *vh.Ctx) {
 	t3 := time.Now()
 	c14EvalSites(c)
 	c.Res.Notes = append(c.Res.Notes, fmt.Sprintf("timing: eval-site oracles + correspondence %.1fs", time.Since(t3).Seconds()))
+}
+
+// c14ObsFamily: the observation name without a trailing member index ("entity.json/7" -> "entity.json").
+func c14ObsFamily(name string) string {
+	i := len(name)
+	for i > 0 && name[i-1] >= '0' && name[i-1] <= '9' {
+		i--
+	}
+	if i > 0 && i < len(name) && name[i-1] == '/' {
+		return name[:i-1]
+	}
+	return name
 }
 
 func trunc(s string, n int) string {
